@@ -105,6 +105,8 @@ def bel_ops(rng, fs, tier):
     """bellerophon::<F, FORMAT>(&Number, lossy): per radix worst cases, many_digits and lossy both ways"""
     ops = []
     per = 150 if tier == "quick" else 3000
+    if len(bel_radices(fs)) == 1:
+        per *= 20          # decimal only (`compact` without `radix`): spend the whole budget on radix 10
     for r in bel_radices(fs):
         fmt = gens.fmt_hex(gens.pack(r))
         for ty in ("f64", "f32"):
